@@ -17,10 +17,12 @@
 //!       9 (after 1) the forced path: PRESWITCH never gets through, `max_blocking_time` expires, the scan
 //!         runs and finishes, FINALSWITCH does not get through: (FINAL_SWITCH, PRE_CHECK)
 //!     followed by the `hs …` / `src …` lines of what thereby happened in every pending migration
+//!     `gate <level> <src proxy>` moves only the migrations whose source proxy is <src proxy>
+//!   kill <addr>                      the proxy process dies (failed proxy): it is asked and told nothing any more
 //!   states                           every migration task of every proxy (UMCTL INFO), sorted
 //!   follow <start> <slot> <picks>    GET <key of slot> at <start>, following MOVED;
 //!                                    `k=<MOVED seen> <proxy>>M:<addr>;…;<proxy>>X:<node>|H|E:<kind>`
-//!   late <proxy> <slot>              reply a queued (`H`) command got when the blocking was released
+//!   late <proxy> <slot> <pick|->     reply a queued (`H`) command got when the blocking was released
 use arc_swap::ArcSwap;
 use futures::channel::mpsc;
 use futures::Future;
@@ -28,7 +30,7 @@ use serde_json::json;
 use std::collections::{BTreeMap, BTreeSet, HashMap};
 use std::convert::TryFrom;
 use std::pin::Pin;
-use std::sync::atomic::{AtomicBool, AtomicUsize, Ordering};
+use std::sync::atomic::{AtomicBool, Ordering};
 use std::sync::{Arc, Mutex, RwLock};
 use std::time::Duration;
 use umharness::broker_support::*;
@@ -69,7 +71,10 @@ struct PBox {
 #[derive(Default)]
 struct NetInner {
     proxies: RwLock<HashMap<String, Arc<PBox>>>,
-    level: AtomicUsize,
+    /// gate level per migration (key text); a migration the harness has not gated yet is at level 0
+    levels: Mutex<HashMap<String, usize>>,
+    /// source node address -> key text of the migration scanning it (for the SCAN gate)
+    node_key: Mutex<HashMap<String, BTreeSet<String>>>,
     /// delivered handshake requests since the last drain: (dst proxy, sub command, key text) -> reply
     hs_log: Mutex<BTreeMap<(String, String, String), String>>,
     /// replies to UMCTL SETCLUSTER, per proxy address, in order
@@ -156,10 +161,10 @@ async fn exec_one(net: &Arc<NetInner>, address: &str, cmd: Vec<BinSafeStr>) -> R
     let pbox = net.proxies.read().expect("proxies").get(address).cloned();
     let name = cmd.first().map(|b| up(b)).unwrap_or_default();
     let sub = cmd.get(1).map(|b| up(b)).unwrap_or_default();
-    let level = net.level.load(Ordering::SeqCst);
     match pbox {
         Some(p) => {
             if name == "UMCTL" && (sub == "PRECHECK" || sub == "PRESWITCH" || sub == "FINALSWITCH") {
+                let level = net.levels.lock().expect("levels").get(&key_text_of_args(&cmd)).cloned().unwrap_or(0);
                 let (deliver, ack) = match (level, sub.as_str()) {
                     // level 9 = the forced path: PRESWITCH and FINALSWITCH never get through, the scan does
                     (9, "PRECHECK") => (true, true),
@@ -191,7 +196,12 @@ async fn exec_one(net: &Arc<NetInner>, address: &str, cmd: Vec<BinSafeStr>) -> R
         None => {
             // a Redis node
             if name == "SCAN" {
-                if level >= 4 {
+                // the scan of a migration is held exactly while that migration is at level 3; scans of
+                // several migrations out of one node cannot be told apart, so any of them at 3 holds all
+                let keys = net.node_key.lock().expect("nk").get(address).cloned().unwrap_or_default();
+                let lv = net.levels.lock().expect("levels");
+                let held = keys.iter().any(|k| lv.get(k).cloned().unwrap_or(0) == 3);
+                if !held {
                     Resp::Arr(Array::Arr(vec![Resp::Bulk(BulkStr::Str(b"0".to_vec())), Resp::Arr(Array::Arr(vec![]))]))
                 } else {
                     Resp::Error(b"GATE".to_vec())
@@ -438,11 +448,6 @@ impl Runner {
         self.s.stats.oracle_failure(c, &what, finding, r);
     }
 
-    /// F02a: `proxy` was registered with two equal node addresses (add_proxy accepts that)
-    fn has_dup_node_addresses(&self, proxy: &str) -> bool {
-        self.store.all_proxies.get(proxy).map(|p| p.node_addresses[0] == p.node_addresses[1]).unwrap_or(false)
-    }
-
     fn new_case(&mut self) {
         if self.case > 0 && self.flags.contains("migration") && self.flags.contains("handshake") {
             let txt = self.ops.join("\n");
@@ -496,6 +501,10 @@ impl Runner {
                     }
                 }
                 let r = st.change_config(n.to_string(), m);
+                (toks.join(" "), fin(st, r.map(|_| String::new())))
+            }
+            ["balance", n] => {
+                let r = st.balance_masters(n.to_string());
                 (toks.join(" "), fin(st, r.map(|_| String::new())))
             }
             ["del_free", n] => {
@@ -671,41 +680,75 @@ impl Runner {
         }
     }
 
-    async fn do_gate(&mut self, level: usize) {
-        let old = self.net.level.load(Ordering::SeqCst);
+    fn level_of(&self, key: &str) -> usize {
+        self.net.levels.lock().expect("levels").get(key).cloned().unwrap_or(0)
+    }
+
+    /// the largest gate level among the pending migrations (0 when there is none)
+    fn max_level(&self) -> usize {
+        self.migrations().iter().map(|(k, _, _)| self.level_of(k)).max().unwrap_or(0)
+    }
+
+    /// `gate <level>` moves every pending migration to `level`, `gate <level> <src proxy>` only those
+    /// whose source proxy is `<src proxy>`; then what thereby happened in each of them is reported
+    async fn do_gate(&mut self, level: usize, only_src: Option<&str>) {
         self.net.hs_log.lock().expect("hs").clear();
-        self.net.level.store(level, Ordering::SeqCst);
-        self.emit(format!("gate {}", level), "ok".to_string());
-        let migs = self.migrations();
+        {
+            // source node -> the pending migrations out of it (those of dropped tasks are forgotten)
+            let mut nk = self.net.node_key.lock().expect("nk");
+            nk.clear();
+            for (key, _, _) in self.migrations() {
+                if let Some(sn) = key.split(' ').nth(4) {
+                    nk.entry(sn.to_string()).or_default().insert(key.clone());
+                }
+            }
+        }
+        let migs: Vec<(String, String, String)> =
+            self.migrations().into_iter().filter(|(_, sp, _)| only_src.map(|o| o == sp).unwrap_or(true)).collect();
         // what happens between the two levels, per migration
-        let steps: Vec<usize> = if level == 9 {
-            if old == 1 { vec![9] } else { vec![] }
-        } else if old == 9 {
-            if level == 6 { vec![5, 6] } else { vec![] }
-        } else if level > old {
-            ((old + 1)..=level).collect()
-        } else {
-            vec![]
-        };
-        if migs.is_empty() || steps.is_empty() {
+        let mut plan: Vec<(String, String, String, Vec<usize>)> = vec![];
+        for (key, sp, dp) in migs.iter() {
+            let old = self.level_of(key);
+            let steps: Vec<usize> = if level == 9 {
+                if old == 1 { vec![9] } else { vec![] }
+            } else if old == 9 {
+                if level == 6 { vec![5, 6] } else { vec![] }
+            } else if level > old {
+                ((old + 1)..=level).collect()
+            } else {
+                vec![]
+            };
+            plan.push((key.clone(), sp.clone(), dp.clone(), steps));
+        }
+        {
+            let mut lv = self.net.levels.lock().expect("levels");
+            for (key, _, _, steps) in plan.iter() {
+                // a migration that is already further along is not pulled back
+                if !steps.is_empty() {
+                    lv.insert(key.clone(), level);
+                }
+            }
+        }
+        match only_src {
+            Some(o) => self.emit(format!("gate {} {}", level, o), "ok".to_string()),
+            None => self.emit(format!("gate {}", level), "ok".to_string()),
+        }
+        if plan.iter().all(|p| p.3.is_empty()) {
             return;
         }
         self.flags.insert("handshake".to_string());
-        // wait until every migration reached the phase pair of this level
+        // wait until every moved migration reached the phase pair of its level
         let (es, ed) = Self::expected_states(level);
-        let want = migs.len();
         for _ in 0..(if level == 9 { 1200 } else { 400 }) {
             let t = self.states_text().await;
             let lines: Vec<&str> = t.split('|').collect();
-            let mut ok = 0;
-            for (_, sp, dp) in migs.iter() {
-                let s_ok = lines.iter().any(|l| l.starts_with(&format!("{}/", sp)) && l.ends_with(&format!("/{}", es)));
-                let d_ok = lines.iter().any(|l| l.starts_with(&format!("{}/", dp)) && l.ends_with(&format!("/{}", ed)));
-                if s_ok && d_ok {
-                    ok += 1;
-                }
-            }
-            if ok >= want {
+            let all = plan.iter().filter(|p| !p.3.is_empty()).all(|(key, sp, dp, _)| {
+                let ranges = key.split(' ').nth(2).unwrap_or("?");
+                let s_ok = lines.iter().any(|l| l.starts_with(&format!("{}/{}/", sp, ranges)) && l.ends_with(&format!("/{}", es)));
+                let d_ok = lines.iter().any(|l| l.starts_with(&format!("{}/{}/", dp, ranges)) && l.ends_with(&format!("/{}", ed)));
+                s_ok && d_ok
+            });
+            if all {
                 break;
             }
             tokio::time::sleep(Duration::from_millis(5)).await;
@@ -714,8 +757,12 @@ impl Runner {
             tokio::time::sleep(Duration::from_millis(5)).await;
         }
         let hs = self.net.hs_log.lock().expect("hs").clone();
-        for step in steps {
-            for (key, sp, dp) in migs.iter() {
+        let max_steps: BTreeSet<usize> = plan.iter().flat_map(|p| p.3.iter().cloned()).collect();
+        for step in max_steps {
+            for (key, sp, dp, steps) in plan.iter() {
+                if !steps.contains(&step) {
+                    continue;
+                }
                 let hs_line = |me: &mut Runner, sub: &str| {
                     let obs = hs.get(&(dp.clone(), sub.to_string(), key.clone())).cloned().unwrap_or_else(|| "MISSING".to_string());
                     me.s.stats.count(&format!("out.hs.{}.{}", sub, obs));
@@ -750,8 +797,10 @@ impl Runner {
             }
             if step == 9 {
                 // … and the scan runs to its end although the destination never switched
-                for (key, sp, _) in migs.iter() {
-                    self.emit(format!("src {} scanDone {}", sp, key), "ok".to_string());
+                for (key, sp, _, steps) in plan.iter() {
+                    if steps.contains(&9) {
+                        self.emit(format!("src {} scanDone {}", sp, key), "ok".to_string());
+                    }
                 }
                 self.s.stats.count("gen.forced_path");
             }
@@ -759,20 +808,42 @@ impl Runner {
         self.s.stats.count(&format!("op.gate.{}", level));
     }
 
-    /// commands queued behind a blocking that has just been released
+    /// commands queued behind a blocking that has just been released (those still queued behind
+    /// another migration's blocking stay pending)
     async fn drain_pending(&mut self) {
+        for _ in 0..40 {
+            if self.pending.iter().all(|(p, _)| p.done.load(Ordering::SeqCst)) {
+                break;
+            }
+            tokio::time::sleep(Duration::from_millis(5)).await;
+        }
         let pend: Vec<_> = self.pending.drain(..).collect();
         for (probe, handle) in pend {
-            let _ = tokio::time::timeout(Duration::from_secs(3), handle).await;
+            if !probe.done.load(Ordering::SeqCst) {
+                self.pending.push((probe, handle));
+                continue;
+            }
             let late = probe.late.lock().expect("late").clone();
             let at = probe.at.lock().expect("at").clone();
+            let pick = match &late {
+                Some(Hop::Moved(_, a)) => a.clone(),
+                _ => "-".to_string(),
+            };
             let obs = match late {
                 Some(h) => render_hop(&h),
                 None => format!("{}>STILL_HELD", at),
             };
             self.s.stats.count("op.late");
-            self.emit(format!("late {} {}", at, probe.slot), obs);
+            self.emit(format!("late {} {} {}", at, probe.slot, pick), obs);
         }
+    }
+
+    /// a proxy process dies (a failed proxy): it takes no part any more
+    fn do_kill(&mut self, addr: &str) {
+        self.net.proxies.write().expect("proxies").remove(addr);
+        self.views.remove(addr);
+        self.synced_epoch.remove(addr);
+        self.emit(format!("kill {}", addr), "ok".to_string());
     }
 
     fn slot_info(&self) -> Option<Vec<SlotInfo>> {
@@ -834,7 +905,26 @@ impl Runner {
             Some(i) => &i[slot],
             None => return,
         };
-        let level = self.net.level.load(Ordering::SeqCst);
+        // the gate level that matters for this slot: that of its migration, or — for a stable slot — of a
+        // migration whose (possibly blocking) source node is the slot's owner
+        let migs = self.migrations();
+        let level = match &info.mig {
+            Some((src, dst)) => migs
+                .iter()
+                .find(|(k, _, _)| {
+                    let t: Vec<&str> = k.split(' ').collect();
+                    t.get(4) == Some(&src.as_str()) && t.get(6) == Some(&dst.as_str())
+                })
+                .map(|(k, _, _)| self.level_of(k))
+                .unwrap_or(0),
+            // a stable slot can only be held behind a migration out of its owner node that is blocking
+            None => migs
+                .iter()
+                .filter(|(k, _, _)| k.split(' ').nth(4) == Some(info.owner_node.as_str()))
+                .map(|(k, _, _)| self.level_of(k))
+                .find(|l| (1..=2).contains(l))
+                .unwrap_or(0),
+        };
         let moved = hops.iter().filter(|h| matches!(h, Hop::Moved(..))).count();
         let last = hops.last().cloned();
         if level == 9 {
@@ -882,11 +972,8 @@ impl Runner {
         };
         self.s.stats.count("oracle.checked");
         if let Some(w) = what {
-            // F02a: the run ends with `slot not covered` at a proxy registered with two equal node addresses
-            let finding = match hops.last() {
-                Some(Hop::Err(p, e)) if e == "slot-not-covered" && self.has_dup_node_addresses(p) => "F02a",
-                _ => "",
-            };
+            // (F02a — equal node addresses of one proxy — is fixed in /repo bf43b2d: nothing is excused any more)
+            let finding = "";
             let msg = format!("C02: {} [level {}, trace {}]", w, level, hops.iter().map(render_hop).collect::<Vec<_>>().join(";"));
             self.fail_as(msg, finding);
         }
@@ -929,7 +1016,7 @@ impl Runner {
         let mig = info.as_ref().map(|i| i[probe.slot].mig.is_some()).unwrap_or(false);
         self.s.stats.count(if mig { "gen.slot.migrating" } else { "gen.slot.stable" });
         if k == 2 || kind == "H" {
-            self.s.stats.sample(json!({"start": probe.start, "slot": probe.slot, "level": self.net.level.load(Ordering::SeqCst),
+            self.s.stats.sample(json!({"start": probe.start, "slot": probe.slot, "level": self.max_level(),
                 "trace": hops.iter().map(render_hop).collect::<Vec<_>>().join(";")}));
         }
         self.oracle(&probe.start, probe.slot, &hops, info, synced);
@@ -944,8 +1031,7 @@ impl Runner {
     async fn do_follow_batch(&mut self, probes: &[(String, usize)]) {
         let info = self.slot_info();
         let synced = self.all_synced();
-        let level = self.net.level.load(Ordering::SeqCst);
-        let may_block = (1..=2).contains(&level) && !self.migrations().is_empty();
+        let may_block = self.migrations().iter().any(|(k, _, _)| (1..=2).contains(&self.level_of(k)));
         if !may_block {
             for (start, slot) in probes.iter() {
                 let (probe, h) = self.spawn_probe(start, *slot);
@@ -1057,6 +1143,9 @@ fn boundary_slots(r: &Runner, rng: &mut Rng, n: usize) -> Vec<usize> {
         }
     }
     let mut v: Vec<usize> = s.into_iter().collect();
+    if n == 0 {
+        return v;
+    }
     while v.len() < n {
         v.push(rng.below(SLOT_NUM as u64) as usize);
     }
@@ -1104,9 +1193,11 @@ async fn gen_case(r: &mut Runner, rng: &mut Rng, thorough: bool, idx: u64) {
     let shape = if idx % 12 == 7 { 9 } else { rng.below(9) };
     let n = 4 + 2 * rng.below(3); // 4, 6 or 8 proxies
     for j in 1..=n {
-        // shape 9 (known finding F02a): every proxy is registered with two equal node addresses
-        let second = if shape == 9 { "7001" } else { "7002" };
-        r.do_b(&["add_proxy", &proxy_addr(j), &format!("{}:7001", proxy_host(j)), &format!("{}:{}", proxy_host(j), second), "-"]);
+        if shape == 9 {
+            // regression for F02a (fixed in /repo bf43b2d): a proxy whose two node addresses are equal is refused
+            r.do_b(&["add_proxy", &proxy_addr(j), &format!("{}:7001", proxy_host(j)), &format!("{}:7001", proxy_host(j)), "-"]);
+        }
+        r.do_b(&["add_proxy", &proxy_addr(j), &format!("{}:7001", proxy_host(j)), &format!("{}:7002", proxy_host(j)), "-"]);
     }
     r.do_b(&["add_cluster", "c1", "4", "-"]);
     r.limit = if shape == 6 { 1 } else { 0 };
@@ -1119,7 +1210,7 @@ async fn gen_case(r: &mut Runner, rng: &mut Rng, thorough: bool, idx: u64) {
         6 => "migrating_limit1",
         7 => "scale_down_migrating",
         8 => "forced_path_blocking_timeout",
-        _ => "dup_node_address_failover_F02a",
+        _ => "dup_node_address_refused_then_failover",
     }));
     match shape {
         0 => {}
@@ -1190,51 +1281,151 @@ async fn gen_case(r: &mut Runner, rng: &mut Rng, thorough: bool, idx: u64) {
     }
     if has_mig && shape == 8 {
         for level in [1usize, 9, 6] {
-            r.do_gate(level).await;
+            r.do_gate(level, None).await;
             r.do_states().await;
             probe(r, rng, &starts, &slots, if level == 1 { 3 } else { 6 }).await;
         }
     } else if has_mig {
-        let max_level = if rng.chance(3, 4) { 6 } else { rng.below(6) as usize + 1 };
-        for level in 1..=max_level {
-            r.do_gate(level).await;
-            r.do_states().await;
-            let per = if (1..=2).contains(&level) { 3 } else { 6 };
-            probe(r, rng, &starts, &slots, per).await;
+        // long-lived proxies: the same MetaManagers receive every further SETCLUSTER of the history
+        let migs = r.migrations();
+        let srcs: BTreeSet<String> = migs.iter().map(|m| m.1.clone()).collect();
+        let has_free = (1..=n).map(proxy_addr).any(|a| !in_cluster.contains(&a) && !r.store.failed_proxies.contains(&a));
+        let variant = match rng.below(10) {
+            0..=4 => 0,
+            5..=7 if srcs.len() >= 2 => 1,
+            8..=9 if has_free => 2,
+            _ => 0,
+        };
+        match variant {
+            1 => {
+                // two concurrent migrations: one is walked to the end and committed while the other runs
+                r.s.stats.count("gen.history.commit_one_while_other_runs");
+                let a_src = rng.pick(&srcs.iter().cloned().collect::<Vec<_>>()).clone();
+                let other = *rng.pick(&[0usize, 0, 1, 3, 4, 5]);
+                for level in 1..=other {
+                    for sp in srcs.iter().filter(|x| **x != a_src) {
+                        r.do_gate(level, Some(sp)).await;
+                    }
+                }
+                for level in 1..=6 {
+                    r.do_gate(level, Some(&a_src)).await;
+                    if level == 3 || level == 6 {
+                        r.do_states().await;
+                        probe(r, rng, &starts, &slots, 3).await;
+                    }
+                }
+                let commits = reported_commits(r, &[a_src.clone()]).await;
+                for op in commits {
+                    let t: Vec<&str> = op.split(' ').collect();
+                    r.do_b(&t);
+                }
+                resync(r, rng, &in_cluster).await;
+                for level in (other + 1)..=6 {
+                    r.do_gate(level, None).await;
+                    r.do_states().await;
+                    probe(r, rng, &in_cluster, &slots, if (1..=2).contains(&level) { 2 } else { 4 }).await;
+                }
+                let commits = reported_commits(r, &in_cluster).await;
+                for op in commits {
+                    let t: Vec<&str> = op.split(' ').collect();
+                    r.do_b(&t);
+                }
+                resync(r, rng, &in_cluster).await;
+            }
+            2 => {
+                // a failover while the migrations run: the migrations that involve the failed proxy are
+                // re-issued (fresh tasks), the others keep their tasks and phases under a higher epoch
+                r.s.stats.count("gen.history.failover_during_migration");
+                let lvl = *rng.pick(&[0usize, 3, 4]);
+                for level in 1..=lvl {
+                    r.do_gate(level, None).await;
+                }
+                r.do_states().await;
+                let victim = rng.pick(&in_cluster).clone();
+                r.do_b(&["failover", &victim, "-"]);
+                let now = cluster_proxies(&r.store);
+                if !now.contains(&victim) {
+                    r.do_kill(&victim);
+                }
+                resync(r, rng, &now).await;
+                for level in [3usize, 6] {
+                    r.do_gate(level, None).await;
+                    r.do_states().await;
+                    probe(r, rng, &now, &slots, 4).await;
+                }
+            }
+            _ => {
+                // global walk; at one or two points the epoch is bumped by something that touches no task
+                // (balance_masters) and every proxy re-applies its metadata
+                let max_level = if rng.chance(3, 4) { 6 } else { rng.below(6) as usize + 1 };
+                let p1 = rng.below(max_level as u64 + 1) as usize;
+                let p2 = rng.below(max_level as u64 + 1) as usize;
+                for level in 0..=max_level {
+                    if level > 0 {
+                        r.do_gate(level, None).await;
+                        r.do_states().await;
+                        let per = if (1..=2).contains(&level) { 3 } else { 6 };
+                        probe(r, rng, &starts, &slots, per).await;
+                    }
+                    if level == p1 || (level == p2 && rng.chance(1, 2)) {
+                        r.s.stats.count(&format!("gen.history.balance_resync_at_level_{}", level));
+                        r.do_b(&["balance", "c1"]);
+                        resync(r, rng, &in_cluster).await;
+                    }
+                }
+                if max_level == 6 && rng.chance(2, 3) {
+                    // the coordinator commits what the source proxies report (real INFOMGR → real from_strings)
+                    let commits = reported_commits(r, &in_cluster).await;
+                    for op in commits {
+                        let t: Vec<&str> = op.split(' ').collect();
+                        r.do_b(&t);
+                    }
+                    r.s.stats.count("gen.commit_round");
+                    resync(r, rng, &in_cluster).await;
+                }
+            }
         }
-        if max_level == 6 && rng.chance(2, 3) {
-            // the coordinator commits what the source proxies report (real INFOMGR → real from_strings)
-            let mut commits = BTreeSet::new();
-            for a in in_cluster.iter() {
-                let p = r.net.proxies.read().expect("proxies").get(a).cloned();
-                if let Some(p) = p {
-                    if let Resp::Arr(Array::Arr(items)) = run_cmd(&p, &[b"UMCTL".to_vec(), b"INFOMGR".to_vec()]).await {
-                        for it in items {
-                            if let Resp::Bulk(BulkStr::Str(b)) = it {
-                                let s = String::from_utf8_lossy(&b).to_string();
-                                let mut toks = s.split(' ').map(|t| t.to_string()).peekable();
-                                if let Some(m) = MigrationTaskMeta::from_strings(&mut toks) {
-                                    if let SlotRangeTag::Migrating(meta) = &m.slot_range.tag {
-                                        commits.insert(format!("commit c1 {} {} M 0", meta.epoch, render_ranges(&m.slot_range.range_list)));
-                                    }
-                                }
+    }
+}
+
+/// what the given proxies report as finished (real `UMCTL INFOMGR`, real `from_strings`), as commit ops
+async fn reported_commits(r: &Runner, proxies: &[String]) -> BTreeSet<String> {
+    let mut commits = BTreeSet::new();
+    for a in proxies.iter() {
+        let p = r.net.proxies.read().expect("proxies").get(a).cloned();
+        if let Some(p) = p {
+            if let Resp::Arr(Array::Arr(items)) = run_cmd(&p, &[b"UMCTL".to_vec(), b"INFOMGR".to_vec()]).await {
+                for it in items {
+                    if let Resp::Bulk(BulkStr::Str(b)) = it {
+                        let s = String::from_utf8_lossy(&b).to_string();
+                        let mut toks = s.split(' ').map(|t| t.to_string()).peekable();
+                        if let Some(m) = MigrationTaskMeta::from_strings(&mut toks) {
+                            if let SlotRangeTag::Migrating(meta) = &m.slot_range.tag {
+                                commits.insert(format!("commit c1 {} {} M 0", meta.epoch, render_ranges(&m.slot_range.range_list)));
                             }
                         }
                     }
                 }
             }
-            r.do_gate(0).await;
-            for op in commits {
-                let t: Vec<&str> = op.split(' ').collect();
-                r.do_b(&t);
-            }
-            r.s.stats.count("gen.commit_round");
-            let slots2 = boundary_slots(r, rng, nslots);
-            sync_all(r, rng, &in_cluster, false, &slots2).await;
-            r.do_states().await;
-            probe(r, rng, &in_cluster, &slots2, 6).await;
         }
     }
+    commits
+}
+
+/// every live proxy of the cluster re-applies the broker's current metadata; afterwards one key of
+/// every slot class (both ends of every range the view shows) is routed from every proxy
+async fn resync(r: &mut Runner, rng: &mut Rng, addrs: &[String]) {
+    r.s.stats.count("gen.history.resync");
+    let classes = boundary_slots(r, rng, 0);
+    sync_all(r, rng, addrs, false, &classes).await;
+    r.do_states().await;
+    let mut ps = vec![];
+    for st in addrs.iter() {
+        for sl in classes.iter() {
+            ps.push((st.clone(), *sl));
+        }
+    }
+    r.do_follow_batch(&ps).await;
 }
 
 /// Replays are written with the proxy addresses of the run that recorded them, but the real store
@@ -1329,7 +1520,9 @@ async fn replay(r: &mut Runner, lines: &[String]) {
                 r.do_view(a, lim)
             }
             ["sync", a, m] => r.do_sync(a, m).await,
-            ["gate", l] => r.do_gate(l.parse().unwrap_or(0)).await,
+            ["gate", l] => r.do_gate(l.parse().unwrap_or(0), None).await,
+            ["gate", l, sp] => r.do_gate(l.parse().unwrap_or(0), Some(sp)).await,
+            ["kill", a] => r.do_kill(a),
             ["states"] => r.do_states().await,
             ["follow", st, sl, _] => {
                 if let Ok(s) = sl.parse::<usize>() {
